@@ -147,4 +147,90 @@ def run(replay=None):
             first = [a for k, a in ub_cases if a[0] == w][0]
             chk.violation(f'ipow<uint{w}_t> promoted-int overflow', f'C++ semantics (CKernel) give signed overflow of the promoted int in ipow<uint{w}_t>{tuple(first[1:])}; clang UBSan on the real code: {confirmed}',
                           {'cases': [['ipow', list(first)]], 'model': 'UB SignedOverflow', 'clang_ubsan': confirmed})
+    sizing(chk)
     return chk.finish()
+
+
+def sizing(chk):
+    """the 'consequently' clause: the storage a Morton / Hilbert field allocates for itself (when it is built from another field)
+    has more cells than the largest curve position of any in-range coordinate, for every extent vector up to a bound and
+    elongated ones beyond it; the length must also be the model's ipow(round_pow2(max extent), N)"""
+    import itertools
+    from vlib import stacks
+    from props import stack_common as sc
+    thorough = chk.tier == 'thorough'
+    targets = {}
+    for n in (1, 2, 3, 4):
+        ts = [f'morton.{n}.u64.p', f'morton.{n}.u64.b'] + (['hilbert.u64'] if n == 2 else [])
+        targets[n] = ts
+    names, convs = [], []
+    for n, ts in targets.items():
+        src = f'strided.{n}.u64/array.1.f32'
+        names.append(src)
+        for t in ts:
+            names += [f'{t}/array.1.f32', f'{t}/identity.1.u64']
+            convs.append((src, f'{t}/array.1.f32'))
+    runner = sc.StackRunner(chk, 'sz', names, conversions=convs, shard_size=4)
+    for s, log in runner.failed.items():
+        chk.violation('curve storage sizing: stack does not compile: ' + s.split('/')[0], f'{s}: {sc.first_error(log)}', {'stack': s, 'compiler_output': log[-3000:]}, found_input=False)
+    shapes = {1: [[k] for k in (1, 2, 3, 5, 8, 9)], 2: [], 3: [], 4: []}
+    lim = {2: 6 if thorough else 5, 3: 4 if thorough else 3, 4: 3 if thorough else 2}
+    for n in (2, 3, 4):
+        shapes[n] = [list(x) for x in itertools.product(range(1, lim[n] + 1), repeat=n)]
+    shapes[2] += [[4, 8], [8, 2], [3, 17], [17, 3], [1, 9], [16, 5], [2, 33]]
+    shapes[3] += [[4, 4, 16], [16, 2, 2], [2, 9, 3], [1, 1, 17]]
+    shapes[4] += [[2, 2, 2, 9], [5, 1, 1, 2], [1, 4, 1, 3]]
+    lines, meta = [], {}
+    cid = 0
+    for n, ts in targets.items():
+        src = f'strided.{n}.u64/array.1.f32'
+        if src in runner.failed:
+            continue
+        for t in ts:
+            if f'{t}/array.1.f32' in runner.failed or f'{t}/identity.1.u64' in runner.failed:
+                continue
+            for sz in shapes[n]:
+                ncell = 1
+                for x in sz:
+                    ncell *= x
+                cs = list(itertools.product(*[range(x) for x in sz]))
+                if len(cs) > 600:
+                    # the extreme corners and a sample carry the maximum
+                    cs = [c for c in cs if any(c[k] == sz[k] - 1 for k in range(n))][:600]
+                ops = [f'new 0 ' + ' '.join(map(str, sz)) + f' {ncell} ' + ' '.join(['0'] * ncell), f'conv {t}/array.1.f32 1 0', f'on {t}/array.1.f32 cfg 1',
+                       f'on {t}/identity.1.u64 new 0 ' + ' '.join(map(str, sz))]
+                ops += [f'on {t}/identity.1.u64 at 0 ' + ' '.join(map(str, c)) for c in cs]
+                lines.append(f's{cid} {src} ' + ' | '.join(ops))
+                meta[f's{cid}'] = (t, sz, len(cs))
+                cid += 1
+    model, impl = runner.run(lines)
+    for l in lines:
+        id_ = l.split(' ', 1)[0]
+        t, sz, ncs = meta[id_]
+        chk.count_case(('sizing', t, tuple(sz)), max(sz) > 1)
+        p2 = 1
+        while p2 < max(sz):
+            p2 *= 2
+        want_len = p2 ** len(sz)
+        for cfg in impl:
+            a = impl[cfg].get(id_, 'MISSING')
+            if a == 'SKIPPED':
+                continue
+            ap = a.split(' | ')
+            if len(ap) != 4 + ncs or not ap[2].startswith('C '):
+                chk.violation('curve storage sizing: conversion fails: ' + t.split('.')[0], f'{t} extents {sz} in build {cfg}: {[x for x in ap if not x.startswith(("OK", "V", "C"))][:1] or a[:200]}', {'target': t, 'extents': sz, 'impl': a[:1000], 'build': cfg})
+                continue
+            length = int(ap[2].split(';')[-1].split()[0])
+            pos = [int(x.split()[1]) for x in ap[4:] if x.startswith('V ')]
+            mx = max(pos) if pos else 0
+            if length <= mx:
+                chk.violation('curve storage has no more cells than the largest curve position: ' + t.split('.')[0], f'{t} extents {sz} ({cfg}): the converted field owns {length} cells, an in-range coordinate maps to position {mx}',
+                              {'target': t, 'extents': sz, 'cells': length, 'largest_position': mx, 'build': cfg})
+            elif length != want_len:
+                chk.obligation_broken(f'curve storage length differs from ipow(round_pow2(max extent), N): {t} extents {sz} ({cfg})', f'{length} cells, closed form {want_len}')
+            m = model.get(id_)
+            if m is not None and m != a:
+                mp = m.split(' | ')
+                q = next((q for q in range(min(len(mp), len(ap))) if mp[q] != ap[q]), 0)
+                chk.obligation_broken(f'correspondence of curve positions / sizing with the model: {t} extents {sz} ({cfg})', f'impl {ap[q][:120]} model {mp[q][:120]}')
+    chk.cov['sizing_cases'] = len(lines)
